@@ -320,9 +320,11 @@ def materialise(fs, store_dir, image_dir, power=None, rng=None):
 def main():
     trace, store_dir, out_dir, seed, max_torn = sys.argv[1], sys.argv[2].rstrip('/'), sys.argv[3], int(sys.argv[4]), int(sys.argv[5])
     max_points = int(sys.argv[6]) if len(sys.argv) > 6 else 10 ** 9
+    base = sys.argv[7] if len(sys.argv) > 7 else None
     rng = random.Random(seed)
     events = parse(trace)
     fs = FS(store_dir)
+    load_base(fs, base)
     os.makedirs(out_dir, exist_ok=True)
     images = []
     ready = False
@@ -331,6 +333,7 @@ def main():
     effective = []  # indices of events that changed the store (after READY)
     # pass 1: find the effective events (cheap dry run on a scratch FS)
     scratch = FS(store_dir)
+    load_base(scratch, base)
     marks = {}
     r2 = False
     for i, ev in enumerate(events):
@@ -400,6 +403,30 @@ def main():
     img = os.path.join(out_dir, 'final')
     materialise(fs, store_dir, img)
     json.dump({'images': images, 'final': img, 'stats': stats, 'acked_total': acked}, open(os.path.join(out_dir, 'manifest.json'), 'w'))
+
+
+def load_base(fs, base):
+    """the store directory as it was when the traced session began (after a clean stop: all of it durable)"""
+    if not base:
+        return
+    base = base.rstrip('/')
+    for dp, dns, fns in os.walk(base):
+        rel = dp[len(base):]
+        fs.dirs.add(fs.root + rel)
+        for fn in fns:
+            p = os.path.join(dp, fn)
+            if os.path.islink(p) or not os.path.isfile(p):
+                continue
+            f = File()
+            if '/cacache/' not in p:
+                data = open(p, 'rb').read()
+                f.size = len(data)
+                end = len(data)
+                while end > 0 and data[end - 1] == 0:
+                    end -= 1
+                f.data = bytearray(data[:end])
+            f.sync()
+            fs.files[fs.root + rel + '/' + fn] = f
 
 
 def clone_fs(fs):
